@@ -505,3 +505,113 @@ def rule_l_iter(ctx):
             R.viol(b.path, polls[0].where(), "; ".join(why))
     R.floor(1, "iterate-and-remove bodies")
     return R
+
+
+# ---------------------------------------------------------------------------
+# N-keep
+# ---------------------------------------------------------------------------
+NON_REPLACING = ["HashMap::insert", "Entry::or_insert", "Entry::or_insert_with", "Entry::or_insert_with_key", "Entry::or_default",
+                 "RawEntryMut::or_insert", "RawEntryMut::or_insert_with"]
+
+
+def _adds_or_removes(ctx):
+    """body path -> description, for griddle bodies that (transitively, not through a mover) put a new element into a table or take one out"""
+    def build():
+        mv = movers(ctx)
+        direct = {}
+        for body, c, role, recv in hb_calls(ctx):
+            if body.path in mv or body.is_cleanup(c.loc.bb):
+                continue
+            if c.tname in (HBT + "insert", HBT + "insert_no_grow", HBT + "insert_entry"):
+                direct.setdefault(body.path, "stores an element (%s @ %s)" % (c.tname, c.where()))
+            elif c.tname in (HBT + "remove", HBT + "erase", HBT + "replace_bucket_with", HBT + "remove_entry"):
+                direct.setdefault(body.path, "removes an element (%s @ %s)" % (c.tname, c.where()))
+        g = ctx.call_graph()
+        out = dict(direct)
+        changed = True
+        while changed:
+            changed = False
+            for p, callees in g.items():
+                if p in out or p in mv:
+                    continue
+                for q in callees:
+                    if q in out and q not in mv:
+                        out[p] = out[q]
+                        changed = True
+                        break
+        return out
+    return ctx.memo("adds_or_removes", build)
+
+
+def rule_n_keep(ctx):
+    R = RuleResult("N-keep", "when the key is already present, a non-replacing insertion (insert, or_insert*, or_default) stores no new element and "
+                   "removes none: the stored key stays, only the value slot may be written; the region reached on the lookup's Some edge / the Occupied "
+                   "arm calls nothing that inserts into or removes from a table (carrying leftovers is allowed)")
+    from rules_typestate import option_test_edges, S as S_
+    from rules_cost import entry_points, api_name
+    eps = entry_points(ctx)
+    ar = _adds_or_removes(ctx)
+    for name in NON_REPLACING:
+        b = eps.get(name)
+        if b is None:
+            R.anchor("entry:%s" % name, "entry point %s named by the property no longer exists" % name)
+            continue
+        present = set()        # edges (bb, succ) on which the key is known present
+        finds = [c for c in ctx.calls(b) if s_method(ctx, c) is not None and s_method(ctx, c).name == "find" and not b.is_cleanup(c.loc.bb)]
+        for F in finds:
+            dl = F.dest["local"]
+            present |= {e for e, v in option_test_edges(ctx, b, lambda p, dl=dl: p.root == dl and not p.fields(), ignore_debug=False).items() if v == S_}
+        # match on a self enum with an Occupied variant
+        st1 = ctx.facts.types[b.locals[1]["ty"]] if b.arg_count >= 1 else {}
+        adt = ctx.facts.adts.get(st1.get("adt")) if st1.get("k") == "adt" else None
+        if adt is not None and adt["kind"] == "Enum":
+            occ = [i for i, v in enumerate(adt["variants"]) if v["name"] == "Occupied"]
+            for bb in b.reachable():
+                t = b.term(bb)
+                if t["k"] != "switch" or not occ:
+                    continue
+                d = b.source_def(t["discr"])
+                if d is not None and d[1] == "assign" and d[2]["rv"]["k"] == "discr":
+                    p = b.expand(d[2]["rv"]["place"])
+                    if p.root == 1 and not p.fields():
+                        for v, tb in t["targets"]:
+                            if v == occ[0]:
+                                present.add((bb, tb))
+                        if len(adt["variants"]) == 2 and not any(v == occ[0] for v, tb in t["targets"]):
+                            present.add((bb, t["otherwise"]))
+        if not present:
+            # pure delegation: the whole handle is passed to another non-replacing insertion on every path
+            deleg = [c for c in ctx.calls(b) if not b.is_cleanup(c.loc.bb) and c.local_callee() is not None
+                     and api_name(c.local_callee().path) in NON_REPLACING and c.arg_path(0) is not None and c.arg_path(0).root == 1
+                     and not c.arg_path(0).fields()]
+            if deleg and all(any(c.loc.bb == rb or c.loc.bb in b.dom().get(rb, set()) for c in deleg) for rb in b.return_blocks()):
+                R.inst(entry=name, delegates_to=deleg[0].tname, verdict="ok")
+                continue
+            R.inst(entry=name, verdict="VIOLATION")
+            R.viol("%s:shape" % name, b.where(Loc(0, 0)), "%s does not branch on the lookup result / on its Occupied variant (unproven)" % name)
+            continue
+        bad = []
+        for (x, s_) in present:
+            if b.preds(s_, True) != [x]:
+                continue
+            region = {y for y in b.reachable() if s_ == y or s_ in b.dom().get(y, set())}
+            for y in region:
+                if b.is_cleanup(y):
+                    continue
+                c = ctx.call_at(b, y) if b.term(y)["k"] == "call" else None
+                if c is None:
+                    continue
+                if c.tname in (HBT + "insert", HBT + "insert_no_grow", HBT + "insert_entry", HBT + "remove", HBT + "erase", HBT + "replace_bucket_with"):
+                    bad.append("%s @ %s" % (c.tname, c.where()))
+                lc = c.local_callee()
+                targets = ([lc] if lc is not None else []) + c.closure_args()
+                for tb in targets:
+                    if tb.path in movers(ctx):
+                        continue
+                    if tb.path in ar:
+                        bad.append("%s @ %s %s" % (c.tname, c.where(), ar[tb.path]))
+        R.inst(entry=name, present_edges=len(present), verdict="ok" if not bad else "VIOLATION")
+        if bad:
+            R.viol(name, b.where(Loc(0, 0)), "with the key already present %s still reaches: %s — the stored key would be replaced (a plain insert keeps the "
+                   "key that is already there) or the element moved by hand" % (name, "; ".join(sorted(set(bad))[:4])))
+    return R
